@@ -4,6 +4,7 @@
 From Coq Require Import ZArith List Bool.
 From Soc Require Import Lib.Bits Lib.Res.
 From Soc Require Import Model.Mux Model.MuxSpec Model.Gpio.
+From Soc Require Model.RegPack.
 Import ListNotations.
 Open Scope Z_scope.
 
@@ -28,6 +29,26 @@ Definition sc_code (e : elem_in) (j : nat) : Z := slice (2 * Z.of_nat j) 2 (e_sc
 (* two element-level traces give pin j the same slices: pin level, its own bits of the three write-data words, the shared strobes *)
 Definition agree_on (j : nat) (es1 es2 : list elem_in) : Prop :=
   map (fun e => pin_slice e j) es1 = map (fun e => pin_slice e j) es2.
+
+
+(* ------------------------------------------------------------------ the registers in the vocabulary of C11 *)
+
+(* the `fields` argument each register class passes to csr.Register.__init__ (dict key atoms: 1 = "pin", 2 = "set",
+   3 = "clr"); signedness / enum-ness of a shape never reaches the packing *)
+Definition mode_tree (n : nat) : RegPack.ftree := RegPack.Map [(1, RegPack.Arr (repeat (RegPack.Leaf 2 RegPack.FRW) n))].
+Definition input_tree (n : nat) : RegPack.ftree := RegPack.Map [(1, RegPack.Arr (repeat (RegPack.Leaf 1 RegPack.FR) n))].
+Definition output_tree (n : nat) : RegPack.ftree := RegPack.Map [(1, RegPack.Arr (repeat (RegPack.Leaf 1 RegPack.FRW) n))].
+Definition setclr_tree (n : nat) : RegPack.ftree :=
+  RegPack.Map [(1, RegPack.Arr (repeat (RegPack.Map [(2, RegPack.Leaf 1 RegPack.FW); (3, RegPack.Leaf 1 RegPack.FW)]) n))].
+
+
+(* element-side inputs of the Mode / Output / SetClr registers in one cycle *)
+Definition mode_ein (el : elem_in) (r_stb : bool) : RegPack.ein :=
+  {| RegPack.e_r_stb := r_stb; RegPack.e_w_stb := e_mode_wstb el; RegPack.e_w_data := e_mode_wdata el |}.
+Definition out_ein (el : elem_in) (r_stb : bool) : RegPack.ein :=
+  {| RegPack.e_r_stb := r_stb; RegPack.e_w_stb := e_out_wstb el; RegPack.e_w_data := e_out_wdata el |}.
+Definition sc_ein (el : elem_in) : RegPack.ein :=
+  {| RegPack.e_r_stb := false; RegPack.e_w_stb := e_sc_wstb el; RegPack.e_w_data := e_sc_wdata el |}.
 
 
 (* ------------------------------------------------------------------ constructor and layout *)
